@@ -13,6 +13,7 @@ import (
 	"go/types"
 	"regexp"
 	"sort"
+	"strconv"
 	"strings"
 
 	"gldapverif/an"
@@ -124,6 +125,11 @@ type guide struct {
 	asserts []string        // recorded (*packet).assert events
 	trace   []guideDecision // forks decided on this path
 	paths   int
+	// oracle decides a branch from rule-specific knowledge (e.g. the shape of
+	// the tree being decoded): returns 0/1 (successor index) or -1.
+	oracle func(f *frame, iff *ssa.If) int
+	// onCall lets the rule observe calls on the path (returns true when handled).
+	onCall func(f *frame, x *ssa.Call) bool
 }
 
 // successReach: blocks of fn from which a return with a nil error (or any
@@ -139,7 +145,7 @@ func (g *guide) successReach(fn *ssa.Function) map[*ssa.BasicBlock]bool {
 		ok := true
 		if ei >= 0 {
 			res := an.ReturnResults(ret)
-			ok = an.IsNilConst(an.Strip(res[ei]))
+			ok = !definitelyError(res[ei], ret)
 		}
 		if ok && !r[ret.Block()] {
 			r[ret.Block()] = true
@@ -173,6 +179,23 @@ func (f *frame) choose(iff *ssa.If, k *an.Walk) int {
 		return 0
 	case s1 && !s0:
 		return 1
+	}
+	if g.oracle != nil {
+		if d := g.oracle(f, iff); d >= 0 {
+			return d
+		}
+	}
+	// comparisons of two known constants (e.g. option defaults)
+	if inner, ineg := an.Not(iff.Cond); true {
+		if bo, ok := inner.(*ssa.BinOp); ok {
+			a, b := f.sym(bo.X), f.sym(bo.Y)
+			if v, ok := constCompare(a, bo.Op, b); ok {
+				if v != ineg {
+					return 0
+				}
+				return 1
+			}
+		}
 	}
 	// decided by what is known symbolically: nil tests of values we know
 	cond, neg := an.Not(iff.Cond)
@@ -599,7 +622,13 @@ func (f *frame) symd0(v ssa.Value, d int) string {
 		if k, ok := f.memKey(x); ok {
 			return "&" + k
 		}
-		return "&" + f.substitute(an.Canon(&ssa.UnOp{Op: token.MUL, X: x}))
+		return "&" + strings.TrimPrefix(f.symd(x.X, d+1), "&") + "." + an.FieldAddrName(x)
+	case *ssa.IndexAddr:
+		idx := "*"
+		if !an.IsRangeIdx(x.Index) {
+			idx = f.symd(x.Index, d+1)
+		}
+		return "&" + strings.TrimPrefix(f.symd(x.X, d+1), "&") + "[" + idx + "]"
 	case *ssa.Call:
 		if b, ok := x.Common().Value.(*ssa.Builtin); ok && b.Name() == "append" {
 			base := f.symd(x.Common().Args[0], d+1)
@@ -837,6 +866,9 @@ func (f *frame) call(x *ssa.Call, k *an.Walk) {
 	if callee != nil {
 		key = an.FuncKey(callee)
 	}
+	if f.g != nil && f.g.onCall != nil && f.g.onCall(f, x) {
+		return
+	}
 	valType := func(v ssa.Value) string {
 		if mi, ok := v.(*ssa.MakeInterface); ok {
 			return types.TypeString(mi.X.Type().Underlying(), nil)
@@ -925,6 +957,11 @@ func (f *frame) call(x *ssa.Call, k *an.Walk) {
 		f.tuples[x] = []string{"nil"}
 		f.elem[x] = "nil"
 		return
+	}
+	if f.g != nil && callee != nil {
+		if gt := f.c.opts().Getters[callee]; gt != nil && gt.OK {
+			return // option getters are resolved through the option summaries (optsField / optValue)
+		}
 	}
 	if f.g != nil && callee != nil && an.InModule(callee) && len(callee.Blocks) > 0 && !f.g.opaque[key] && f.env.depth < 8 {
 		sub := f.c.interpCall(callee, x, f)
@@ -1226,9 +1263,22 @@ type guidedPath struct {
 	Asserts []string
 	Decided map[*ssa.If]int
 	Trace   []guideDecision
+	State   any
 }
 
 func (c *Ctx) guidedPaths(fn *ssa.Function, env *symEnv, opaque map[string]bool, limit int) ([]guidedPath, bool) {
+	return c.guidedPathsO(fn, env, opaque, limit, nil, nil)
+}
+
+func (c *Ctx) guidedPathsO(fn *ssa.Function, env *symEnv, opaque map[string]bool, limit int, oracle func(f *frame, iff *ssa.If) int, onCall func(f *frame, x *ssa.Call) bool) ([]guidedPath, bool) {
+	return c.guidedPathsF(fn, env, opaque, limit, func() (func(f *frame, iff *ssa.If) int, func(f *frame, x *ssa.Call) bool, any) {
+		return oracle, onCall, nil
+	})
+}
+
+// guidedPathsF: like guidedPathsO but the oracle is created afresh for every
+// run (it may carry per-path state, returned in guidedPath.State).
+func (c *Ctx) guidedPathsF(fn *ssa.Function, env *symEnv, opaque map[string]bool, limit int, mk func() (func(f *frame, iff *ssa.If) int, func(f *frame, x *ssa.Call) bool, any)) ([]guidedPath, bool) {
 	var out []guidedPath
 	complete := true
 	reach := map[*ssa.Function]map[*ssa.BasicBlock]bool{}
@@ -1238,7 +1288,8 @@ func (c *Ctx) guidedPaths(fn *ssa.Function, env *symEnv, opaque map[string]bool,
 			complete = false
 			return
 		}
-		g := &guide{decide: decide, reach: reach, opaque: opaque}
+		oracle, onCall, state := mk()
+		g := &guide{decide: decide, reach: reach, opaque: opaque, oracle: oracle, onCall: onCall}
 		r := c.interpG(fn, env, map[string]bool{}, nil, g)
 		if g.fork != nil {
 			for i := 0; i < 2; i++ {
@@ -1251,8 +1302,62 @@ func (c *Ctx) guidedPaths(fn *ssa.Function, env *symEnv, opaque map[string]bool,
 			}
 			return
 		}
-		out = append(out, guidedPath{Res: r, Asserts: g.asserts, Decided: decide, Trace: g.trace})
+		out = append(out, guidedPath{Res: r, Asserts: g.asserts, Decided: decide, Trace: g.trace, State: state})
 	}
 	rec(map[*ssa.If]int{})
 	return out, complete
+}
+
+// constCompare evaluates a comparison of two literal expressions.
+func constCompare(a string, op token.Token, b string) (bool, bool) {
+	ia, ea := strconv.ParseInt(a, 10, 64)
+	ib, eb := strconv.ParseInt(b, 10, 64)
+	if ea == nil && eb == nil {
+		return cmp(ia, op, ib), true
+	}
+	isLit := func(s string) bool {
+		return len(s) >= 2 && s[0] == '"' && s[len(s)-1] == '"' || s == "nil" || s == "true" || s == "false"
+	}
+	if isLit(a) && isLit(b) {
+		switch op {
+		case token.EQL:
+			return a == b, true
+		case token.NEQ:
+			return a != b, true
+		}
+	}
+	return false, false
+}
+
+// definitelyError: the returned error value is certainly non-nil (a freshly
+// built error, a package-level error variable, or a value this return is
+// control-dependent on being non-nil). An error handed through from a callee
+// may be nil, so such a return can still be a success.
+func definitelyError(v ssa.Value, ret *ssa.Return) bool {
+	sv := an.Strip(v)
+	if an.IsNilConst(sv) {
+		return false
+	}
+	switch x := sv.(type) {
+	case *ssa.Call:
+		if f := x.Common().StaticCallee(); f != nil {
+			k := an.FuncPkgPath(f) + "." + f.Name()
+			if k == "fmt.Errorf" || k == "errors.New" {
+				return true
+			}
+		}
+	case *ssa.UnOp:
+		if _, ok := x.X.(*ssa.Global); ok {
+			return true
+		}
+	}
+	for _, fct := range an.BranchFacts(ret.Block()) {
+		cond, neg := an.Not(fct.Cond)
+		if y, trueMeansNil, ok := an.NilCheck(cond); ok && an.Strip(y) == sv {
+			if (fct.True != neg) != trueMeansNil {
+				return true
+			}
+		}
+	}
+	return false
 }
